@@ -362,11 +362,14 @@ def spaces(tier, seed):
     _TIER[0] = tier
     ginits = [{'center_extrema': c, 'thresholds': t} for c in ('peak', 'trough')
               for t in (None, dict(S.T0), {'monotonicity': .6, 'min_n_cycles': 2})]
-    return [ListSpace('bfs:Bycycle-histories', inits(), eval_init,
+    sp = [ListSpace('bfs:Bycycle-histories', inits(), eval_init,
                       describe='BFS over fit/fit/edit/recompute_edges/load histories, depth <= %d, one per initial configuration' % DEPTH[tier],
                       bounds={'depth': DEPTH[tier], 'initial_configurations': len(inits())}),
             ListSpace('bfs:BycycleGroup-histories', ginits, eval_group,
                       describe='BFS over 2-D / 3-D fits x axis, threshold edits, recompute_edges; depth <= %d' % (2 if tier == 'quick' else 3))]
+    for x in sp:
+        x.task_timeout = 600 if tier == 'quick' else 6 * 3600      # one task = one whole BFS
+    return sp
 
 
 def replay(rec):
